@@ -18,6 +18,12 @@ CHECKS = {
     "C13": ("P progcheck", "bounded-exhaustive enumeration of run / add-facts histories over compiled programs x initial inputs x added fact sets vs the reference fixpoint of the union of all inputs",
             "Families F-scc, F-lat, F-agg: histories run;run and run;run;add S;run for every initial input of the budget and every single added fact (thorough: pairs and a second add;run), facts added to any relation incl. derived ones; idempotence for all programs, equality with a fresh run for programs without negation / aggregation.",
             "added lattice rows use keys the relation does not hold yet; no caller-made duplicate facts", "6 C13"),
+    "C10": ("P progcheck", "bounded-exhaustive insertion histories x access patterns on compiled programs with the real eqrel provider vs the explicit equivalence closure", 'Programs with a clocked feeder (the input relation sched(i,[k,]a,b) is the insertion history: which pair arrives in which iteration of the recursive stratum, keys that pause and resume), an at-once feeder, a feeder split over two strata and a self-feeding rule; one reader per access pattern (every subset of bound columns, constants, repeated variable, relation first / second in a simple join, self join) placed in a later stratum and inside the recursive stratum; binary and ternary form; all schedules with <= 3 facts over pairs {0,1,2}^2, times 0..2 (ternary: 2 keys); every reader relation compared with the explicit reflexive-symmetric-transitive closure computed by the naive evaluator; programs that do not compile are reported.', "serial macros only in this entry (parallel binary eqrel: vsched); results observed through reader relations", "6 C10-C12"),
+    "C11": ("P progcheck", "bounded-exhaustive insertion histories x access patterns on compiled programs with the real trrel provider vs the explicit transitive closure", 'Programs with a clocked feeder (the input relation sched(i,[k,]a,b) is the insertion history: which pair arrives in which iteration of the recursive stratum, keys that pause and resume), an at-once feeder, a feeder split over two strata and a self-feeding rule; one reader per access pattern (every subset of bound columns, constants, repeated variable, relation first / second in a simple join, self join) placed in a later stratum and inside the recursive stratum; binary and ternary form; all schedules with <= 3 facts over pairs {0,1,2}^2, times 0..2 (ternary: 2 keys); every reader relation compared with the explicit transitive closure computed by the naive evaluator; programs that do not compile are reported.', "results observed through reader relations", "6 C10-C12"),
+    "C12": ("P progcheck", "bounded-exhaustive insertion histories x access patterns on compiled programs with the real trrel_uf provider vs the explicit reflexive-transitive closure", 'Programs with a clocked feeder (the input relation sched(i,[k,]a,b) is the insertion history: which pair arrives in which iteration of the recursive stratum, keys that pause and resume), an at-once feeder, a feeder split over two strata and a self-feeding rule; one reader per access pattern (every subset of bound columns, constants, repeated variable, relation first / second in a simple join, self join) placed in a later stratum and inside the recursive stratum; binary and ternary form; all schedules with <= 3 facts over pairs {0,1,2}^2, times 0..2 (ternary: 2 keys); every reader relation compared with the explicit reflexive-transitive closure computed by the naive evaluator; programs that do not compile are reported.', "results observed through reader relations", "6 C10-C12"),
+    "C14": ("P progcheck + virtual clock", "fault enumeration: run_timeout(t) for every t in 0..=M+1 virtual clock readings, i.e. every position at which the deadline can strike; single, repeated and double interruptions; resume with run()",
+            "Programs from F-scc, F-lat, F-agg compiled with #![generate_run_timeout]; hook H-A2 makes ascent::internal::Instant a per-thread tick counter (1 ns per reading) so that scanning t hits every deadline check; after a false return every tuple must be in the model and every lattice value below the final one, after true the state equals the fixed point, after the resuming run() it equals the fixed point of an uninterrupted run.",
+            "serial macro; hook verif-hooks (virtual Instant)", "6 C14"),
     "C16": ("H histcheck", "exhaustive enumeration (all pairs / triples over complete small carriers) on the real Lattice impls",
             "All 256 values of u8/i8 (pairs; triples in thorough), boundary carriers for wider integers, complete carriers for every shipped composite lattice incl. nestings; every law of the property is evaluated on every pair/triple of the real implementation.",
             "rustc/std trusted; wide integers only at boundary values", "6 C16"),
@@ -66,7 +72,7 @@ def main():
         "hooks": {
             "guard": "cargo feature verif-hooks (crates ascent, ascent_macro, ascent-byods-rels)",
             "enable": "harness crates depend on /repo crates by path with features=[\"verif-hooks\"] where a hook is needed",
-            "baseline_off_cmd": "cd /repo && cargo test --workspace --no-fail-fast --offline",
+            "baseline_off_cmd": "cd /repo && rm -f ascent_macro/examples/scratchpad.rs && cargo test --workspace --no-fail-fast --offline",
             "source_commits": hooks_commits,
             "add_only": True,
         },
